@@ -1132,8 +1132,27 @@ pub fn mon_txcons(_scn: &Scenario, r: &Record, out: &mut V) {
             if let Some(t0) = mine.first().map(|d| d.t) {
                 let close_dgram = mine.iter().filter(|d| d.t == t0).last().unwrap();
                 let later: Vec<&&Dgram> = mine.iter().filter(|d| d.t > t0).collect();
+                // Once the connection's state has been discarded the *endpoint* answers further datagrams
+                // for that connection id with stateless resets (RFC 9000 10.2: "an endpoint MAY send a
+                // Stateless Reset in response to any further incoming packets"; 10.3.3 keeps the exchange
+                // finite because every reset is smaller than its trigger): those are not transmissions of
+                // the closed connection. They are recognised by the endpoint-level event, one per datagram.
+                let mut resets: BTreeMap<u64, usize> = BTreeMap::new();
+                for e in r.events.iter().filter(|e| e.ep == ep) {
+                    if let Ev::EndpointPacketSent { kind } = &e.ev {
+                        if kind == "StatelessReset" {
+                            *resets.entry(e.t).or_insert(0) += 1;
+                        }
+                    }
+                }
                 for d in &later {
                     if d.payload != close_dgram.payload {
+                        if let Some(n) = resets.get_mut(&d.t) {
+                            if *n > 0 {
+                                *n -= 1;
+                                continue;
+                            }
+                        }
                         v(out, "txcons.datagram_after_close", format!("{} sent datagram #{} ({} bytes) at {} us after its CONNECTION_CLOSE datagram #{} and it is not a copy of it", epn(ep), d.idx, d.payload.len(), d.t, close_dgram.idx));
                     }
                 }
